@@ -6,18 +6,42 @@ from .. import common
 MANIFEST = {
     "text": "Lean 4 theorems for EVERY length n>=1 (odd and even) over any field with a primitive n-th root of unity (C with "
             "e^{-2 pi i/n} is an instance): ft is the centred DFT with origin at sample n/2, ift(ft x)=x and ft(ift X)=X when "
-            "delta_f=1/(n delta), linearity, shift theorem, bilinear Plancherel and Parseval over C, ift2(ft2 x)=x. The model "
+            "delta_f=1/(n delta), linearity, shift theorem, bilinear Plancherel and Parseval over C, ift2(ft2 x)=x, ft2(ift2 X)=X, "
+            "2-D Parseval; real-input variants for even n: irft(rft x)=x, rft(irft H)=H, irft2(rft2 x)=x, rft2(irft2 H)=H, Parseval on "
+            "the n/2+1 (resp. n x (n/2+1)) bins with weight 1 at the explicit positions of DC and Nyquist after the shift. The model "
             "(Model/Fourier.lean) is hand-written and tied to aotools.fouriertransform and to the package-level names by running the "
             "same Lean definitions at binary64 against the real functions on all lengths 1..33, batch shapes, real/complex data; "
             "oracles evaluate inverse pair / Parseval / linearity / shift / centred-origin / real-variant clauses on the real code.",
     "note": "Trusted: Lean kernel + standard axioms; numpy.fft.fft/ifft/fft2 = the naive DFT sums and fft2 = nested 1-D transforms "
-            "(checked numerically each run to 1e-9); binary64 rounding not modelled. Real-input variants: inverse pair/Parseval are "
-            "proved for even n in 1-D (irft_rft), Parseval on half-spectra and the 2-D variants decided by the oracle; odd n is an open "
-            "finding (API cannot know the length).",
+            "(checked numerically each run to 1e-9); rfft/irfft = bins 0..n/2 of the DFT / inverse DFT of the Hermitian completion "
+            "(the model keeps the imaginary parts of the DC and Nyquist bins that numpy's C2R drops: equal on half-spectra with real "
+            "DC/Nyquist, the domain of irft, where the model's output is proved real); binary64 rounding not modelled. Real-input "
+            "variants are proved for even n (1-D and n x n); odd n is an open finding (API cannot know the length).",
     "technique": "Lean 4 proof (roots of unity, induction-free algebra over Finset sums) + differential correspondence with the real code",
 }
 REQUIRED = ["ft_centred", "ift_ft", "ft_ift", "ft_linear", "ift_linear", "shift_theorem", "plancherel", "ift2_ft2",
-            "parseval", "fft_root_primitive", "irft_rft"]
+            "parseval", "fft_root_primitive", "irft_rft",
+            # round 2: the real-input variants and the remaining 2-D clauses
+            "rft_dc", "rft_nyquist", "parseval_half", "irft2_rft2", "parseval_half2", "ft2_ift2", "parseval2",
+            "irft_real", "rft_irft", "rft2_irft2"]
+
+
+def dc_pos(n):
+    """position of the DC bin in rft's output (Props.C09.dcPos)"""
+    return (n // 2 + 1) // 2
+
+
+def nyq_pos(n):
+    """position of the Nyquist bin in rft's output for even n (Props.C09.nyqPos)"""
+    return (n // 2 + 1) // 2 - 1
+
+
+def half_weights(n):
+    """Props.C09.halfWeight: 1 at the two self-conjugate bins, 2 elsewhere"""
+    w = numpy.full(n // 2 + 1, 2.0)
+    w[dc_pos(n)] = 1.0
+    w[nyq_pos(n)] = 1.0
+    return w
 TOL = 1e-9
 
 
@@ -82,6 +106,24 @@ def correspondence(chk, F, pkg, quick):
         e = F.irft(H, d).astype(complex)
         expect.append((e, pkg.irft(H, d).astype(complex), numpy.abs(H).max() * max(d, 1) * 2 + 1e-300))
         desc.append(("irft", m, d, "half-spectrum", ()))
+    # 2-D real-input variants: rft2 on real n×n (even n ≤ 8), irft2 on genuine half-spectra — square (the domain of the
+    # theorem irft2_rft2) and non-square N×m ones (the model takes N = data.shape[-2] for BOTH scale factors, as the code does)
+    for n in [2, 4, 6, 8]:
+        x = rand_field(nprng, (n, n), "real")
+        d = chk.rng.choice([1.0, 0.5, 0.25, 2.0])
+        lines.append(cplx_line("rft2", n, d, x))
+        e = F.rft2(x, d)
+        expect.append((e, pkg.rft2(x, d), numpy.abs(x).max() * n * n * max(d * d, 1) + 1e-300))
+        desc.append(("rft2", n, d, "real", ()))
+        chk.count("corr:rft2:even:batch0")
+    for (N, L) in [(2, 2), (4, 4), (6, 6), (8, 8), (3, 4), (4, 6), (5, 2), (6, 4), (2, 8), (7, 6)]:
+        d = chk.rng.choice([1.0, 0.5, 0.25])
+        H = F.rft2(rand_field(nprng, (N, L), "real"), 1.0)   # a genuine N × (L/2+1) half-spectrum
+        lines.append(cplx_line("irft2", N, d, H))
+        e = F.irft2(H, d).astype(complex)
+        expect.append((e, pkg.irft2(H, d).astype(complex), numpy.abs(e).max() + 1e-300))
+        desc.append(("irft2", N, d, "half-spectrum %dx%d" % H.shape, ()))
+        chk.count("corr:irft2:%s" % ("square" if N == L else "nonsquare"))
     # phasescreen.ift2 (2-D, no batch, even and odd): a different function with its own model
     from aotools.turbulence import phasescreen
     for n in [2, 3, 4, 5, 6, 8]:
@@ -251,6 +293,22 @@ def oracle(chk, F, pkg, quick):
                             tot = t
                 if n % 2 == 0 and tot is None:
                     bad("real:parseval:%s" % par, "half-spectrum Parseval fails for n=%d (%s)" % (n, ename), n=n)
+                if n % 2 == 0:
+                    # the same clause exactly as theorem parseval_half states it: weights by the explicit positions of DC and Nyquist
+                    p_x = (x ** 2).sum() * d
+                    t = (half_weights(n) * numpy.abs(H) ** 2).sum() * df
+                    if abs(t - p_x) > TOL * p_x:
+                        bad("real:parseval-layout:%s" % par, "Σx²δ ≠ δ_f Σ w_k|H_k|² with w=1 at positions %d (DC), %d (Nyquist) of %s.rft "
+                            "for n=%d (%.12g vs %.12g)" % (dc_pos(n), nyq_pos(n), ename, n, p_x, t), n=n, x=x.tolist())
+                    # rft_dc / rft_nyquist: the bins at those positions are Σx·δ and Σ(±1)^j x·δ (up to the sign of the shift)
+                    if abs(H[dc_pos(n)] - x.sum() * d) > TOL * n * numpy.abs(x).max() or \
+                            abs(abs(H[nyq_pos(n)]) - abs((x * (-1.0) ** numpy.arange(n)).sum() * d)) > TOL * n * numpy.abs(x).max():
+                        bad("real:layout:%s" % par, "%s.rft does not put DC / Nyquist at positions %d / %d for n=%d"
+                            % (ename, dc_pos(n), nyq_pos(n), n), n=n, x=x.tolist())
+                    # the other composition on a genuine half-spectrum (theorem rft_irft)
+                    H2 = M.rft(M.irft(H, df), d)
+                    if H2.shape != H.shape or numpy.abs(H2 - H).max() > TOL * (numpy.abs(H).max() + 1e-300):
+                        bad("real:rft∘irft:%s" % par, "%s.rft(irft(H,1/(nδ)),δ) ≠ H for a half-spectrum of a real signal, n=%d" % (ename, n), n=n)
         if n % 2 == 0 and n <= 16:
             for ename, M in entries:
                 chk.oracle_cases += 1
@@ -262,6 +320,19 @@ def oracle(chk, F, pkg, quick):
                     ok = False
                 if not ok:
                     bad("real:irft2∘rft2:%s" % par, "%s.irft2(rft2(x)) ≠ x for real n×n x, n=%d" % (ename, n), n=n)
+                    continue
+                # theorem parseval_half2: weights only along the halved last axis
+                d, df = 0.5, 1.0 / (n * 0.5)
+                H = M.rft2(x, d)
+                p_x = (x ** 2).sum() * d * d
+                t = (half_weights(n)[None, :] * numpy.abs(H) ** 2).sum() * df * df
+                if H.shape != (n, n // 2 + 1) or abs(t - p_x) > TOL * p_x:
+                    bad("real:parseval2-layout:%s" % par, "Σx²δ² ≠ δ_f² Σ w_k|H_ak|² on the %s bins of %s.rft2 for n=%d (%.12g vs %.12g)"
+                        % (H.shape, ename, n, p_x, t), n=n)
+                # theorem rft2_irft2
+                H2 = M.rft2(M.irft2(H, df), d)
+                if H2.shape != H.shape or numpy.abs(H2 - H).max() > TOL * (numpy.abs(H).max() + 1e-300):
+                    bad("real:rft2∘irft2:%s" % par, "%s.rft2(irft2(H)) ≠ H for the half-spectrum of a real n×n array, n=%d" % (ename, n), n=n)
 
 
 def kernel_contract(chk):
@@ -280,12 +351,17 @@ def kernel_contract(chk):
 def run(chk):
     quick = chk.tier == "quick"
     chk.rule = ("correspondence: Lean model at binary64 vs fouriertransform.* and aotools.* for all n in 1..33 (thorough: to 129), "
-                "batch shapes (),(3,),(2,3), integer/dyadic/gaussian data, several δ, tol 1e-9·scale; oracle: the clauses of the property "
+                "batch shapes (),(3,),(2,3), integer/dyadic/gaussian data, several δ, tol 1e-9·scale; rft/irft even n ≤ 32, rft2 even n ≤ 8, "
+                "irft2 on genuine square and non-square half-spectra; oracle: the clauses of the property "
                 "on the real code; distinct = distinct (op, n, δ, data kind, batch, entry point)")
     chk.assumptions = ["numpy.fft kernels = naive DFT sums (contract checked numerically each run)",
                        "closeness of the sampled Gaussian's transform to the analytic Gaussian is numeric only (bound 2e-3·peak for σ = nδ/8)",
-                       "real-input variants: irft(rft x)=x is proved for even n (irft_rft); half-spectrum Parseval and the 2-D variants "
-                       "rft2/irft2 are decided by the oracle only; odd n is an open finding"]
+                       "real-input variants: proved for even n only (1-D and n×n); odd n is an open finding. numpy's rfft/irfft are "
+                       "modelled as bins 0..n/2 of the DFT / the inverse DFT of the Hermitian completion; the model keeps the imaginary "
+                       "parts of the DC/Nyquist bins that numpy drops, so model = code only on half-spectra with real DC/Nyquist "
+                       "(correspondence runs on genuine half-spectra; irft_real proves the model's output real exactly there)",
+                       "non-square inputs of rft2 and batch dimensions of the real variants are not modelled (irft2 is: N×m, "
+                       "N = shape[-2] on both scale factors)"]
     import aotools
     from aotools import fouriertransform as F
     chk.build_and_audit("AoVerif.Props.C09", "AoVerif.Props.C09", REQUIRED)
